@@ -65,12 +65,20 @@ pub fn replay(args: &Args) {
                 }
                 _ => {
                     let tokens = e["tokens"].as_u64().unwrap() as usize;
+                    let mut extra = 0;
                     match e["q"].as_str().unwrap_or("none") {
-                        "general" => dev.rx.push_back(igmp_query(None, resp)),
-                        "specific" => dev.rx.push_back(igmp_query(Some(group_addr(&g)), resp)),
+                        "general" => {
+                            dev.rx.push_back(igmp_query(None, resp));
+                            extra = 1;
+                        }
+                        "specific" => {
+                            dev.rx.push_back(igmp_query(Some(group_addr(&g)), resp));
+                            extra = 1;
+                        }
                         _ => {}
                     }
-                    dev.tx_budget = Some(tokens);
+                    // (the queue device counts the token that comes with a received frame against the budget)
+                    dev.tx_budget = Some(tokens + extra);
                     let r = guarded(|| {
                         iface.poll(Instant::from_millis(now), &mut dev, &mut sockets);
                     });
